@@ -94,6 +94,15 @@ def judge(out, before, after, tdir, sources, codes, tags):
             if p not in after or subtree(after, p) != subtree(before, p):
                 out.fail("old_entry_damaged", "pre-existing %s (%s) was replaced, merged into or "
                          "lost" % (p, key), **tags)
+    for nm, e in b.items():
+        # an orphan must stay an orphan: a payload without info must not be given somebody else's
+        # .trashinfo, an info without payload must not be given somebody else's payload
+        if nm in a and e["info"] is None and a[nm]["info"] is not None:
+            out.fail("orphan_adopted", "pre-existing payload %s (no .trashinfo) now has an info "
+                     "file that describes another entry" % e["payload"], **tags)
+        if nm in a and e["payload"] is None and a[nm]["payload"] is not None:
+            out.fail("orphan_adopted", "pre-existing info %s (no payload) now has a payload that "
+                     "belongs to another entry" % e["info"], **tags)
     new = {nm: e for nm, e in a.items() if nm not in b or
            (b[nm]["info"] is None and e["info"] is not None and b[nm]["payload"] is None) or
            (b[nm]["payload"] is None and e["payload"] is not None and b[nm]["info"] is None)}
